@@ -155,6 +155,11 @@ func run(sp spec, tier string, seed int64, par int, keep bool, override int) int
 		fmt.Printf("INCONCLUSIVE property=%s worker does not build\n", sp.Prop)
 		return 2
 	}
+	if old, _ := filepath.Glob(filepath.Join(verifDir, "replay", sp.Prop+"-*.json")); len(old) > 0 {
+		for _, f := range old {
+			os.Remove(f)
+		}
+	}
 	scratch, err := ioutil.TempDir("", "verif."+sp.Prop+".")
 	if err != nil {
 		fmt.Println(err)
@@ -308,7 +313,7 @@ func (a *agg) addViol(sig, detail string, c int, w interface{}) {
 	v.Count++
 }
 
-var reRepoFrame = regexp.MustCompile(`github\.com/meshplus/bitxhub/((?:internal|pkg|api|cmd)/[^\s(]*)`)
+var reRepoFrame = regexp.MustCompile(`github\.com/meshplus/bitxhub/((?:internal|pkg|api|cmd)/\S*)`)
 
 func firstRepoFrame(log string) string {
 	i := strings.Index(log, "panic:")
@@ -323,6 +328,9 @@ func firstRepoFrame(log string) string {
 		return ""
 	}
 	f := m[1]
+	if i := strings.LastIndex(f, "("); i > 0 && !strings.HasSuffix(f[:i], ".") {
+		f = f[:i]
+	}
 	f = regexp.MustCompile(`\.func\d+(\.\d+)*$`).ReplaceAllString(f, "")
 	return f
 }
@@ -387,7 +395,16 @@ func (a *agg) add(br *batchResult) {
 			if len(head) > 3000 {
 				head = head[:3000]
 			}
-			a.addViol("crash:"+frame, fmt.Sprintf("worker process died (%v) in case %d at step %q\n%s", br.exitErr, open, lastStep, head), open,
+			msg := ""
+			if i := strings.Index(head, "\n"); i > 0 {
+				msg = head[:i]
+			}
+			msg = regexp.MustCompile(`0x[0-9a-fA-F]+|[0-9]+`).ReplaceAllString(msg, "N")
+			msg = strings.TrimPrefix(strings.TrimPrefix(msg, "panic: "), "fatal error: ")
+			if len(msg) > 60 {
+				msg = msg[:60]
+			}
+			a.addViol("crash:"+frame+"|"+msg, fmt.Sprintf("worker process died (%v) in case %d at step %q\n%s", br.exitErr, open, lastStep, head), open,
 				map[string]interface{}{"case_desc": openDesc, "last_step": lastStep})
 		}
 	}
@@ -452,6 +469,20 @@ func (a *agg) addRaces(file string) {
 			}
 			return ""
 		}
+		// the racing accesses themselves must be in /repo code: races whose accesses sit inside a
+		// dependency are recorded as observations only
+		top := func(st []string) string {
+			if len(st) == 0 {
+				return ""
+			}
+			f := st[0]
+			if strings.Contains(f, "github.com/meshplus/bitxhub/") && !strings.Contains(f, "/verif/") {
+				f = strings.TrimPrefix(f, "github.com/meshplus/bitxhub/")
+				return regexp.MustCompile(`\.func\d+(\.\d+)*$`).ReplaceAllString(f, "")
+			}
+			return ""
+		}
+		t1, t2 := top(stacks[0]), top(stacks[1])
 		f1, f2 := inner(stacks[0]), inner(stacks[1])
 		if f1 > f2 {
 			f1, f2 = f2, f1
@@ -468,7 +499,7 @@ func (a *agg) addRaces(file string) {
 			}
 			return false
 		}
-		if inScope(f1) && inScope(f2) {
+		if inScope(t1) && inScope(t2) {
 			if _, ok := a.raceViol[sig]; !ok {
 				d := blk
 				if len(d) > 3500 {
